@@ -50,6 +50,8 @@ def cases(rng, tier):
             # long swap histories (rows enter, leave and re-enter the submatrix): larger ranks, tight tolerance
             r = rng.randint(12, 30); rows = r + rng.randint(10, 60); kind = rng.choice(["gauss", "gauss", "orth"])
         c = {"kind": kind, "n": rows, "r": r, "seed": rng.randrange(1 << 30), "order": rng.choice(["C", "F"])}
+        if kind in ("gauss", "orth", "int") and rng.random() < 0.2:
+            c["dtype"] = "float32"          # single-precision real matrices (what cross() feeds under PyTorch's default dtype)
         if big:
             c["routine"] = "maxvol"; c["tol"] = rng.choice([1.0, 1.0, 1.01, 1.05]); c["max_iters"] = 10000
         elif rng.random() < 0.5:
@@ -93,10 +95,10 @@ def mk_matrix(case):
         A = A * scale_rows[:, None]
     elif kind == "colscale":
         A = A * np.array([10.0 ** rng.randint(-3, 3) for _ in range(r)])[None, :]
-    A = np.array(A, dtype=np.float64, order=case["order"])
+    A = np.array(A, dtype=np.float32 if case.get("dtype") == "float32" else np.float64, order=case["order"])
     well = True
     if n > r:
-        big = A[scale_rows == 1.0]
+        big = A[scale_rows == 1.0].astype(np.float64)
         B = big / np.maximum(np.abs(big).max(axis=0, keepdims=True), 1e-300) if big.size else big
         if big.shape[0] < r:
             well = False
@@ -154,6 +156,10 @@ def check(ctx, case, A, tall, bad):
     n, r = A.shape
     routine, kind = case["routine"], case["kind"]
     A0 = A.copy()
+    f32 = case.get("dtype") == "float32"
+    if f32:
+        ctx.count("dtype:float32")
+    RT, QS, NS = (2e-4, 1e-4, 1e-3) if f32 else (1e-8, 1e-9, 1e-6)      # reproduction rtol, |C| slack, row-norm slack
     if routine == "maxvol":
         tol, cap = case["tol"], case["max_iters"]
         ctx.case(("maxvol", kind, n, r, tol, cap, case["order"]), tall and (r >= 2 or n > r + 1),
@@ -208,20 +214,21 @@ def check(ctx, case, A, tall, bad):
     if not distinct:
         bad("repeated row index", "indices %s" % idx.tolist())
     sub = A[idx]
-    if np.linalg.matrix_rank(sub / np.maximum(np.abs(sub).max(axis=0, keepdims=True), 1e-300)) < r:
+    sub64 = sub.astype(np.float64)
+    if np.linalg.matrix_rank(sub64 / np.maximum(np.abs(sub64).max(axis=0, keepdims=True), 1e-300)) < r:
         bad("A[idx] singular", "the selected rows have rank < %d" % r)
-    ok, err = close(C @ sub, A, rtol=1e-8)
+    ok, err = close(C @ sub.astype(np.float64), A.astype(np.float64), rtol=RT)
     if not ok:
         bad("C·A[idx] != A", "C @ A[idx] differs from A (%s); K=%d" % (err, K))
     if distinct and (routine == "maxvol" or case["identity"]):
-        ok, err = close(C[idx], np.eye(K), rtol=1e-8)
+        ok, err = close(C[idx], np.eye(K), rtol=RT)
         if not ok:
             bad("C[idx] != I", "C[idx] differs from the identity (%s)" % err)
     # ---- quality clauses
     if routine == "maxvol":
         t = max(tol, 1.0)           # documented: tol < 1 is replaced by 1
         m = float(np.max(np.abs(C)))
-        if m > t * (1 + 1e-9):
+        if m > t * (1 + QS):
             res2 = safe(lambda: py_maxvol(A, tol, 2 * cap + 1))
             same = res2[0] == "ok" and np.array_equal(np.asarray(res2[1][0]), idx) and np.array_equal(np.asarray(res2[1][1]), C)
             if same:
@@ -234,7 +241,7 @@ def check(ctx, case, A, tall, bad):
         unchosen = np.setdiff1d(np.arange(n), idx)
         if unchosen.size and K < maxK:
             nr = float(np.max(np.linalg.norm(C[unchosen], axis=1)))
-            if nr > tol * (1 + 1e-6) + 1e-12:
+            if nr > tol * (1 + NS) + 1e-12:
                 bad("unchosen row norm > tol with K < maxK", "max row norm %.12g > tol = %g, K=%d < maxK=%d" % (nr, tol, K, maxK))
     # ---- model hook (main session): swap sequence / final idx and C vs the Lean model of the loop
     if getattr(ctx, "use_model", False) and not getattr(ctx, "search_only", False):
